@@ -1747,6 +1747,71 @@ impl World for C19 {
         out
     }
 
+    fn conc_history(rng: &mut Rng, shape: u64) -> Option<Vec<Op>> {
+        let words = |rng: &mut Rng| {
+            let mut w = [0u32; 7];
+            for x in w.iter_mut() {
+                *x = match rng.below(4) {
+                    0 => card_word(rng.usize_below(52)),
+                    1 => 0,
+                    _ => 0x4000_0000 | (rng.next_u32() & 0x00FF_FFFF),
+                };
+            }
+            w
+        };
+        let n = 2 + (shape >> 4) as u8 % 6;
+        let reps = 1 + (shape >> 12) as usize % 3;
+        let mut ops = Vec::new();
+        match shape % 5 {
+            0 => {
+                // setters on one size, each write made twice
+                ops.push(Op::New { dst: 0, n, via: VIA_ARR, words: words(rng) });
+                for _ in 0..3 {
+                    let k = rng.below(n as u64) as u8;
+                    let w = words(rng)[0];
+                    for _ in 0..=reps {
+                        ops.push(Op::Set { r: 0, k, w });
+                    }
+                }
+            }
+            1 => {
+                let (a, b) = (words(rng), words(rng));
+                ops.push(Op::New { dst: 1, n: 2, via: VIA_ARR, words: a });
+                ops.push(Op::New { dst: 2, n: 5, via: VIA_ARR, words: b });
+                for _ in 0..=reps {
+                    ops.push(Op::Compose7 { dst: 0, two: 1, five: 2 });
+                }
+            }
+            2 => {
+                let (a, b) = (words(rng), words(rng));
+                ops.push(Op::New { dst: 1, n: 2, via: VIA_ARR, words: a });
+                ops.push(Op::New { dst: 2, n: 3, via: VIA_ARR, words: b });
+                for _ in 0..=reps {
+                    ops.push(Op::Compose6 { dst: 0, one: a[6], two: 1, three: 2 });
+                }
+            }
+            3 => {
+                let n = 6 + (shape >> 4) as u8 % 2;
+                ops.push(Op::New { dst: 0, n, via: VIA_ARR, words: words(rng) });
+                let mut idx = [0u8; 5];
+                for i in idx.iter_mut() {
+                    *i = rng.below(n as u64) as u8;
+                }
+                for _ in 0..=reps {
+                    ops.push(Op::Select { dst: 1, src: 0, idx });
+                }
+            }
+            _ => {
+                let w = words(rng);
+                for _ in 0..=reps {
+                    ops.push(Op::New { dst: 0, n, via: VIA_ARR, words: w });
+                }
+                ops.push(Op::CloneOut { dst: 1, src: 0 });
+            }
+        }
+        Some(ops)
+    }
+
     fn builder_kinds() -> &'static [usize] {
         &[K_NEW, K_DEFAULT]
     }
